@@ -66,6 +66,8 @@ type ExecCtx struct {
 	in        map[*ssa.Function][]callEdge
 	lexical   map[*ssa.Function][]*ssa.BasicBlock
 	reachAll  *Reach
+	// impliesMemo: trueImpliesExec per function (1 yes, 2 no, 3 in progress)
+	impliesMemo map[*ssa.Function]int
 }
 
 // evmCallbacks: module functions go-ethereum calls back while a message is applied.
@@ -308,6 +310,25 @@ func (x *ExecCtx) localPol(b *ssa.BasicBlock) pol {
 		}
 		isE, neg := x.execVal(ifi.Cond)
 		if !isE {
+			// a boolean helper that can only answer true in consensus execution
+			// (`func limited(ctx) bool { return ctx.Exec && … }`): its true edge is exec
+			c, cneg := ifi.Cond, false
+			for {
+				if u, isU := c.(*ssa.UnOp); isU && u.Op == token.NOT {
+					c, cneg = u.X, !cneg
+					continue
+				}
+				break
+			}
+			if call, isCall := c.(*ssa.Call); isCall && x.trueImpliesExec(call) {
+				e := condEdge(ifi, b)
+				if cneg {
+					e = -e
+				}
+				if e == 1 {
+					res = joinPol(res, polT)
+				}
+			}
 			continue
 		}
 		e := condEdge(ifi, b)
@@ -322,6 +343,83 @@ func (x *ExecCtx) localPol(b *ssa.BasicBlock) pol {
 		} else {
 			res = joinPol(res, polF)
 		}
+	}
+	return res
+}
+
+// trueImpliesExec: the callee is a module function with one boolean result that
+// returns true only on paths where the exec flag was tested true.
+func (x *ExecCtx) trueImpliesExec(call *ssa.Call) bool {
+	fn := call.Common().StaticCallee()
+	if fn == nil || !x.w.InModule(fn) || fn.Blocks == nil || len(fn.Blocks) > 16 || fn.Signature.Results().Len() != 1 || !isBoolType(fn.Signature.Results().At(0).Type()) {
+		return false
+	}
+	if x.impliesMemo == nil {
+		x.impliesMemo = map[*ssa.Function]int{}
+	}
+	switch x.impliesMemo[fn] {
+	case 1:
+		return true
+	case 2, 3:
+		return false
+	}
+	x.impliesMemo[fn] = 3 // in progress
+	onEdge := func(pred, blk *ssa.BasicBlock) bool {
+		if x.localPol(pred) == polT {
+			return true
+		}
+		if ifi, ok := lastInstr(pred).(*ssa.If); ok && len(pred.Succs) == 2 && pred.Succs[0] != pred.Succs[1] {
+			if isE, neg := x.execVal(ifi.Cond); isE {
+				return (pred.Succs[0] == blk) != neg
+			}
+		}
+		return false
+	}
+	var ok func(v ssa.Value, at *ssa.BasicBlock, d int) bool
+	ok = func(v ssa.Value, at *ssa.BasicBlock, d int) bool {
+		if d > 4 {
+			return false
+		}
+		if b, isC := constBool(v); isC {
+			return !b || x.localPol(at) == polT
+		}
+		if isE, neg := x.execVal(v); isE && !neg {
+			return true // the flag itself
+		}
+		if ph, isPhi := v.(*ssa.Phi); isPhi {
+			for i, e := range ph.Edges {
+				if b, isC := constBool(e); isC && !b {
+					continue
+				}
+				if onEdge(ph.Block().Preds[i], ph.Block()) {
+					continue
+				}
+				if !ok(e, ph.Block().Preds[i], d+1) {
+					return false
+				}
+			}
+			return true
+		}
+		if in, isIn := v.(ssa.Instruction); isIn && in.Block() != nil {
+			return x.localPol(in.Block()) == polT
+		}
+		return false
+	}
+	res := true
+	n := 0
+	for _, b := range fn.Blocks {
+		if rt, isR := lastInstr(b).(*ssa.Return); isR && b != fn.Recover {
+			n++
+			if len(rt.Results) != 1 || !ok(rt.Results[0], b, 0) {
+				res = false
+			}
+		}
+	}
+	res = res && n > 0
+	if res {
+		x.impliesMemo[fn] = 1
+	} else {
+		x.impliesMemo[fn] = 2
 	}
 	return res
 }
